@@ -19,9 +19,9 @@
 } @*/
 #include "c14_sv.h"
 /* slot j: the constructed prefix holds the list prefix, the rest of the storage is RAW; list element j is LIVE */
-#define SPEC_INV(j) (((j) >= CAP || ((j) < self->m_size ? (self->_data[j].g_state == ELEM_LIVE && self->_data[j].v == lst[j].v) \
-                                                         : self->_data[j].g_state == ELEM_RAW)) && \
-                     ((j) >= lst_len || lst[j].g_state == ELEM_LIVE))
+#define SPEC_INV(j) (((j) >= CAP || ((j) < self->m_size ? (ELEM_ST(&self->_data[j]) == ELEM_LIVE && ELEM_V(&self->_data[j]) == ELEM_V(&lst[j])) \
+                                                         : ELEM_ST(&self->_data[j]) == ELEM_RAW)) && \
+                     ((j) >= lst_len || ELEM_ST(&lst[j]) == ELEM_LIVE))
 #define C14_HAVE_SV
 #include "cxx/sv.c"
 #include "c14_harness.h"
@@ -37,7 +37,7 @@ void harness(void)
     struct static_vector v;
     c14_sv_fresh(&v);
     ELEM *storage = v._data;
-    ELEM in_k = {0, 0};
+    ELEM in_k; ELEM_SET(&in_k, ELEM_RAW, 0);
     if (k < n) in_k = in[k];
     /* known finding: no capacity guard - a list longer than N is written past _data[N] (region: L > N; every group,
        the failing obligation is the pointer check of the store) */
@@ -47,8 +47,8 @@ void harness(void)
 
     V(__CPROVER_assert(v._data == storage, "storage pointer untouched");)
     V(__CPROVER_assert(v.m_size == C14_MIN(n, cap) && SV_SIZE_OK(&v), "size == min(L, N)");)
-    if (k < cap && k < n) V(__CPROVER_assert(v._data[k].v == in_k.v, "element k equals list[k] (prefix kept)");)
-    if (k < n) V(__CPROVER_assert(in[k].v == in_k.v && in[k].g_state == in_k.g_state, "the list is not modified");)
+    if (k < cap && k < n) V(__CPROVER_assert(ELEM_V(&v._data[k]) == ELEM_V(&in_k), "element k equals list[k] (prefix kept)");)
+    if (k < n) V(__CPROVER_assert(ELEM_V(&in[k]) == ELEM_V(&in_k) && ELEM_ST(&in[k]) == ELEM_ST(&in_k), "the list is not modified");)
     if (k < cap) L(__CPROVER_assert(SV_SLOT_OK(&v, k), "SV: slots below m_size LIVE, the others RAW");)
     CANARY("initializer-list ctor end reachable");
 }
